@@ -66,7 +66,8 @@ type mstate struct {
 	cancelled   bool
 	deadline    int64 // ns, -1 = none
 	runIdx      int
-	unpredicted bool // a cancellation landed where the model does not decide the outcome (inside a batch)
+	tables      map[int][]Conn // per flow: the connection table as it stands now (static, then late / dynamic Connects in time order)
+	unpredicted bool           // a cancellation landed where the model does not decide the outcome (inside a batch)
 	sc          *Scn
 	visits      []int
 	now         int64
@@ -98,9 +99,26 @@ func (m *mstate) sleep(ms int) {
 	}
 }
 
+// table returns the current connection table of flow n.
+func (m *mstate) table(n *NodeSpec) []Conn {
+	if m.tables == nil {
+		m.tables = map[int][]Conn{}
+	}
+	t, ok := m.tables[n.ID]
+	if !ok {
+		t = append([]Conn(nil), n.Conns...)
+		m.tables[n.ID] = t
+	}
+	return t
+}
+
 // during is called for every scripted callback invocation.
 func (m *mstate) during(o Outcome) {
 	m.sleep(o.SleepMs)
+	if o.Conn != nil {
+		f := m.sc.Nodes[o.Conn.Flow]
+		m.tables[f.ID] = append(m.table(f), Conn{From: o.Conn.From, Action: o.Conn.Action, To: o.Conn.To})
+	}
 	if m.aware && o.Cancel {
 		m.cancelled = true
 	}
@@ -138,7 +156,7 @@ func runModel(sc *Scn) *Model { return runModelMode(sc, true) }
 func runModelUncancelled(sc *Scn) *Model { return runModelMode(sc, false) }
 
 func runModelMode(sc *Scn, aware bool) *Model {
-	m := &mstate{sc: sc, visits: make([]int, len(sc.Nodes)), last: map[int]int{}, aware: aware, deadline: -1}
+	m := &mstate{sc: sc, visits: make([]int, len(sc.Nodes)), last: map[int]int{}, aware: aware, deadline: -1, tables: map[int][]Conn{}}
 	if sc.Ctx.Kind == "deadline" {
 		m.deadline = sc.Ctx.DeadlineUs * 1000
 	}
@@ -153,6 +171,13 @@ func runModelMode(sc *Scn, aware bool) *Model {
 	}
 	for r := 0; r < runs; r++ {
 		m.runIdx = r
+		if r == 1 { // Connect calls made between the first and the second run
+			for _, f := range sc.Nodes {
+				if f.Kind == "flow" && len(f.LateConns) > 0 {
+					m.tables[f.ID] = append(m.table(f), f.LateConns...)
+				}
+			}
+		}
 		m.run = &MRun{FailEnd: -1}
 		m.steps = 0
 		if sc.Ctx.Kind == "precancel" || sc.Ctx.Kind == "predeadline" {
@@ -211,11 +236,7 @@ func (m *mstate) runFlow(n *NodeSpec) (string, string) {
 		}
 		last = a
 		next, found := -1, false
-		conns := n.Conns
-		if m.runIdx > 0 && len(n.LateConns) > 0 {
-			conns = append(append([]Conn(nil), n.Conns...), n.LateConns...)
-		}
-		for _, c := range conns { // the most recent connection for (cur, a) wins
+		for _, c := range m.table(n) { // the most recent connection for (cur, a) wins
 			if c.From == cur && c.Action == a {
 				next, found = c.To, true
 			}
@@ -345,6 +366,9 @@ func (m *mstate) runLeaf(n *NodeSpec) (string, string) {
 func (m *mstate) itemLane(n *NodeSpec, v, i int, it *Item, budget, wait int, timed bool) *MItem {
 	mi := &MItem{}
 	idesc := itemTok(n.ID, v, i)
+	if it.Pay == "erritem" && (n.PrepShape == "" || n.PrepShape == "results") {
+		idesc = "ER(" + idesc + "E)"
+	}
 	t := func() int64 {
 		if timed {
 			return m.now
@@ -433,7 +457,11 @@ func (m *mstate) runBatch(n *NodeSpec) (string, string) {
 	}
 	var toks []string
 	for i := range vs.Items {
-		toks = append(toks, itemTok(n.ID, v, i))
+		if vs.Items[i].Pay == "erritem" && (n.PrepShape == "" || n.PrepShape == "results") {
+			toks = append(toks, "ER("+itemTok(n.ID, v, i)+"E)")
+		} else {
+			toks = append(toks, itemTok(n.ID, v, i))
+		}
 	}
 	itemsDesc := "[" + strings.Join(toks, " ") + "]"
 	m.emit(MEv{Kind: "prep_end", N: n.ID, V: v, S1: "ok:" + itemsDesc})
